@@ -96,31 +96,11 @@ def filterFrom (lv : Variant) (rv : RVariant) (profile : Bool) (sel : List Nat) 
       | .error e => .error e
       | .ok (st'', out) => .ok (st'', if keep then l.text :: out else out)
 
-/-- a profile data line: `ProfileData.from_str_list` (profile_data.py:50-58); every line is a
-complete data point -/
-def classifyProfile (f : List Text) : Rec :=
-  match pyNat? (f.headD []) with
-  | none => .dataErr .value
-  | some inv =>
-  match f[1]? with
-  | none => .dataErr .index
-  | some f1 =>
-  match pyNat? f1 with
-  | none => .dataErr .value
-  | some nit =>
-  match ((f.drop 2).dropLast).getLast? with
-  | none => .dataErr .index
-  | some idx =>
-  match pyNat? idx with
-  | none => .dataErr .value
-  | some i => .meas ⟨inv, nit, f.getLast?.getD [], "profile".toList, true, i⟩
-
+/-- classification for the filter: `profile` says which `_parse_data_line` is at work; a `pl`
+without profile decoder is given the one that accepts every JSON column (pinned loader) -/
 def classifyP (profile : Bool) (pl : Payloads) (hdr : Text) (l : Line) : Rec :=
-  match l.content with
-  | '#' :: _ => classifyComment pl l.content
-  | _ => if l.content = hdr && l.terminated then .header
-         else if profile then classifyProfile (splitOn '\t' l.content)
-         else classifyData (splitOn '\t' l.content)
+  classify (if profile then { pl with profile := some (pl.profile.getD (fun _ => true)) }
+            else { pl with profile := none }) hdr l
 
 /-- the lines of a text as the filter sees them (unterminated last line: dropped by the
 repaired loader before anything is written) -/
@@ -221,5 +201,67 @@ def crashStates (fs : FS) : List Op → List (Option Text)
 /-- `-c`: every data file of the selected experiments is truncated when its persistence object is
 created (persistence.py:202-224) -/
 def cleanOps (files : List Name) : List Op := files.map Op.truncate
+
+/-! ## several data files rewritten by one `-r` -/
+
+/-- several data files, one temporary file at a time, one buffered write handle -/
+structure MFS where
+  inodes : List Text
+  datas : List (Option Nat)        -- data file j ↦ inode
+  tmp : Option Nat
+  handle : Option (Nat × Text)
+  cap : Nat
+  deriving Repr, DecidableEq
+
+/-- the operations of the repaired rewrite (persistence.py:253-262), on data file `i` -/
+inductive MOp
+  | create                 -- NamedTemporaryFile in the data file's directory
+  | write (t : Text)
+  | close
+  | replace (i : Nat)      -- os.replace(temp, data file i)
+  deriving Repr, DecidableEq
+
+def MFS.flushH (fs : MFS) : MFS :=
+  match fs.handle with
+  | some (i, buf) => { fs with inodes := fs.inodes.set i ((fs.inodes[i]?.getD []) ++ buf), handle := some (i, []) }
+  | none => fs
+
+def MFS.apply (fs : MFS) : MOp → MFS
+  | .create =>
+      { fs with inodes := fs.inodes ++ [[]], tmp := some fs.inodes.length, handle := some (fs.inodes.length, []) }
+  | .write t =>
+      match fs.handle with
+      | some (i, buf) =>
+          let fs' := { fs with handle := some (i, buf ++ t) }
+          if (buf ++ t).length > fs.cap then fs'.flushH else fs'
+      | none => fs
+  | .close => { fs.flushH with handle := none }
+  | .replace i => { fs with datas := fs.datas.set i fs.tmp, tmp := none }
+
+def MFS.run (fs : MFS) (ops : List MOp) : MFS := ops.foldl MFS.apply fs
+
+/-- on-disk contents of all data files -/
+def MFS.contents (fs : MFS) : List (Option Text) :=
+  fs.datas.map (fun d => match d with | some n => fs.inodes[n]? | none => none)
+
+def MFS.start (olds : List Text) (cap : Nat) : MFS :=
+  ⟨olds, (List.range olds.length).map some, none, none, cap⟩
+
+/-- one file's rewrite -/
+def fileOps (i : Nat) (out : List Text) : List MOp :=
+  [.create] ++ out.map MOp.write ++ [.close, .replace i]
+
+/-- the rewrites of one `-r` session: the data files that persist a selected run, one after the
+other (`DataStore.load_data`, persistence.py:54-56) -/
+def multiOps (rws : List (Nat × List Text)) : List MOp := rws.flatMap (fun p => fileOps p.1 p.2)
+
+/-- contents of all data files after each prefix of the operations -/
+def mcrashStates (fs : MFS) : List MOp → List (List (Option Text))
+  | [] => [fs.contents]
+  | o :: os => fs.contents :: mcrashStates (fs.apply o) os
+
+/-- the files switched to their new content so far -/
+def switched (cs : List (Option Text)) (rws : List (Nat × List Text)) : List (Option Text) :=
+  rws.foldl (fun l p => l.set p.1 (some p.2.flatten)) cs
 
 end RB.Rewrite
